@@ -117,6 +117,24 @@ def check(chk, repo, tier):
                                  "lazy views": sorted(lv.views)[:6],
                                  "generators": sorted(lv.nested_gens)})
     chk.floor("catalogued (function, parameter) pairs", n_fn, 25)
+    # bounds and counts written in the program are sympy numbers
+    from .c08 import tower_unaware_tests
+    seen_fn = set()
+    for modname, fname, _ in CATALOGUE:
+        if (modname, fname) in seen_fn:
+            continue
+        seen_fn.add((modname, fname))
+        mod = repo.mod(modname)
+        bad = tower_unaware_tests(mod.functions[fname])
+        chk.ob("C14.bounds-recognised-as-numbers", f"{modname}.{fname}",
+               not bad,
+               (f"`{bad[0][1]}` decides whether a bound / count is a number "
+                "by exact class: 0, 1, -1 and 1/2 are the sympy singletons "
+                "Zero, One, NegativeOne, Half and fall through - the bound "
+                "is treated as absent and the whole (infinite) list is "
+                "taken") if bad else "", mod.rel,
+               bad[0][0].lineno if bad else mod.functions[fname].lineno,
+               witness="Þ∞ 0 Ẏ / Þ∞ 1 Ẏ never returns")
     chk.unit("eager-consumption candidate sites examined", n_sites)
 
     lazylist_methods(chk, repo)
